@@ -1,7 +1,7 @@
 /-
 C01 — SubsetCardinalityFormula(B, equalities) on an arbitrary bipartite graph object.
 -/
-import Lemmas.FamBip
+import Lemmas.FamGraphInv
 import CnfgenModel.Fam.SubsetCard
 namespace Cnfgen.C01
 open Cnfgen Cnfgen.Fam
@@ -77,5 +77,48 @@ theorem sc_cnf_spec (B : BipG) (hg : Fam.GoodBip B) (eq : Bool) (α : Assign) :
 theorem sc_opb_spec (B : BipG) (hg : Fam.GoodBip B) (eq : Bool) (α : Assign) :
     (subsetCardF B eq).toOPB.holds α = true ↔ SCSpec B eq (scLabel B α) := by
   rw [Formula.toOPB_holds α _ (sc_wf B hg eq)]; exact sc_spec B hg eq α
+
+theorem sc_spec_ofEdges (l r : Nat) (es : List (Nat × Nat)) (B : BipG)
+    (h : BipG.ofEdges l r es = .ok B) (eq : Bool) (α : Assign) :
+    (subsetCardF B eq).holds α = true ↔ SCSpec B eq (scLabel B α) :=
+  sc_spec B (Fam.goodBip_ofEdges l r es B h) eq α
+
+/-- non-vacuity of the specification: the 4-cycle, alternate edges labelled 1 -/
+example : ∃ B, BipG.ofEdges 2 2 [(1, 1), (1, 2), (2, 1), (2, 2)] = .ok B ∧
+    SCSpec B true (fun u v => u == v) := by
+  refine ⟨_, rfl, ?_, ?_⟩
+  · intro u h1 h2
+    have h2' : u ≤ 2 := h2
+    have : u = 1 ∨ u = 2 := by omega
+    rcases this with rfl | rfl <;> decide
+  · intro v h1 h2
+    have h2' : v ≤ 2 := h2
+    have : v = 1 ∨ v = 2 := by omega
+    rcases this with rfl | rfl <;> decide
+
+/-- every edge labelling with the documented property is described by a satisfying assignment -/
+theorem sc_realises (B : BipG) (hg : Fam.GoodBip B) (eq : Bool) (x : Nat → Nat → Bool)
+    (h : SCSpec B eq x) : (subsetCardF B eq).holds ((SMap.mk B 1).assignOf x) = true := by
+  rw [sc_spec B hg]
+  have hl : ∀ u, 1 ≤ u → u ≤ B.l →
+      (B.rnbrs u).countP (fun v => scLabel B ((SMap.mk B 1).assignOf x) u v) = (B.rnbrs u).countP (fun v => x u v) := by
+    intro u h1 h2
+    apply List.countP_congr
+    intro v hv
+    have := (SMap.mk B 1).assignOf_var x h1 h2 hv
+    simp only [SMap.var] at this
+    simp only [scLabel, this]
+  have hr : ∀ v, 1 ≤ v → v ≤ B.r →
+      (B.lnbrs v).countP (fun u => scLabel B ((SMap.mk B 1).assignOf x) u v) = (B.lnbrs v).countP (fun u => x u v) := by
+    intro v h1 h2
+    apply List.countP_congr
+    intro u hu
+    have c := (hg.adj u v).2 ⟨h1, h2, hu⟩
+    have := (SMap.mk B 1).assignOf_var x c.1 c.2.1 c.2.2
+    simp only [SMap.var] at this
+    simp only [scLabel, this]
+  refine ⟨fun u h1 h2 => ?_, fun v h1 h2 => ?_⟩
+  · rw [hl u h1 h2]; exact h.left u h1 h2
+  · rw [hr v h1 h2]; exact h.right v h1 h2
 
 end Cnfgen.C01
